@@ -1,5 +1,5 @@
 CONSTANTS P = 83  A = 1  B = 7  Gx = 0  Gy = 16  N = 79
-          ZSet = {1, 79, 80}  ZDeep = {79}
+          ZSet = {1, 80}  ZDeep = {79}
 SPECIFICATION Spec
 INVARIANT ECDSALemmas
 CHECK_DEADLOCK FALSE
